@@ -4,6 +4,7 @@ import json, os, glob, re
 V = os.path.dirname(os.path.dirname(os.path.abspath(__file__)))
 rows = []
 missed = 0
+unreported = set()
 for d in sorted(glob.glob(os.path.join(V, "seeded", "C*", ""))):
     m = json.load(open(d + "meta.json"))
     name = os.path.basename(d.rstrip("/"))
@@ -14,6 +15,9 @@ for d in sorted(glob.glob(os.path.join(V, "seeded", "C*", ""))):
             rep.append(k)
         elif v == 0:
             silent.append(k)
+        elif "NOT REPORTED" in str(v):
+            silent.append(k + " (**not reported**: outside the enumerated space, see section 6)")
+            unreported.add(name)
         elif str(v).startswith("1"):
             rep.append(k + " (thanks to a strengthening made shortly before)")
         else:
@@ -22,7 +26,8 @@ for d in sorted(glob.glob(os.path.join(V, "seeded", "C*", ""))):
     needs = m["needs_to_manifest"].split(". NOTE")[0]
     rows.append("| %s | %s | %s | %s |" % (name, needs[:260], ", ".join(rep), ", ".join(silent) or "-"))
 table = "| seed | what it needs in order to manifest | reported by (quick tier) | also run, silent |\n|------|------|------|------|\n" + "\n".join(rows)
-table += "\n\n%d seeded changes, all reported by at least one quick check; %d check/seed pairs were missed when first run and led to the strengthenings described in the seeds' meta.json files and summarised below.\n" % (len(rows), missed)
+never = [r for r in unreported if not any(v == 1 or (isinstance(v, str) and "NOT REPORTED" not in v) for v in json.load(open(os.path.join(V, "seeded", r, "meta.json")))["quick_check_exit_codes_with_change_applied"].values())]
+table += "\n\n%d seeded changes; %d of them are reported by at least one quick check, %d by none (%s); %d check/seed pairs were missed when first run and led to the strengthenings described in the seeds' meta.json files and summarised below.\n" % (len(rows), len(rows) - len(never), len(never), ", ".join("`%s`" % n for n in never) or "-", missed)
 p = os.path.join(V, "DESIGN.md")
 s = open(p).read()
 repl = "<!-- SEEDTABLE-BEGIN -->\n" + table + "\n<!-- SEEDTABLE-END -->"
